@@ -141,6 +141,18 @@ Takes(q, w, p) == LET e == EffPkt(q, p) m == IF SizeVal(w) < e THEN SizeVal(w) E
 LoopGoesOn(q, w, p, truthy) == SizeVal(w) # 0 /\ (IF truthy THEN EffPkt(q, p) # 0 ELSE EffPkt(q, p) > 0)
 
 ---------------------------------------------------------------------------
+(* (6) what a hostile SERVER sends where the reply to a want-reply channel   *)
+(* request of the client is due (the client's waiting call, its channel and  *)
+(* connection clean-up are the code under test): the request kinds the       *)
+(* client API issues x the message sent instead.  The waiting call completes *)
+(* or fails whatever comes: "resolved" for every row; ReplyHangs is the      *)
+(* wrong variant in which a CLOSE in place of the reply leaves it waiting.   *)
+ReqKinds == {"exec", "subsystem", "pty", "env", "x11"}
+Instead == {"close", "eof_close", "nothing", "open_failure", "two_replies", "disconnect"}
+ReplyCases == { <<k, i>> : k \in ReqKinds, i \in Instead }
+WaiterOutcome(k, i, hangs) == IF hangs /\ i \in {"close", "eof_close"} THEN "pending" ELSE "resolved"
+
+---------------------------------------------------------------------------
 VARIABLES case
 Init == \/ Part = "counts" /\ case \in CountCases
         \/ Part = "counts_swallow" /\ case \in CountCases
@@ -148,6 +160,8 @@ Init == \/ Part = "counts" /\ case \in CountCases
         \/ Part = "der" /\ case \in DerCases
         \/ Part = "loops" /\ case \in LoopCases
         \/ Part = "loops_unfixed" /\ case \in LoopCases
+        \/ Part = "replies" /\ case \in ReplyCases
+        \/ Part = "replies_hang" /\ case \in ReplyCases
         \/ Part = "sizes" /\ case \in SizeCases
         \/ Part = "sizes_truthy" /\ case \in SizeCases
 Next == UNCHANGED case
@@ -168,6 +182,11 @@ CountBounded ==
 SizeProgress ==
     Part \in {"sizes", "sizes_truthy"} =>
         (Takes(case[1], case[2], case[3]) = 0 => ~LoopGoesOn(case[1], case[2], case[3], Part = "sizes_truthy"))
+
+\* whatever stands in for the reply, the waiting call is resolved
+WaiterResolved ==
+    Part \in {"replies", "replies_hang"} =>
+        WaiterOutcome(case[1], case[2], Part = "replies_hang") = "resolved"
 
 Emit == PrintT(ToString(<<"SCRIPT", case, Part>>))
 =============================================================================
